@@ -501,27 +501,8 @@ func runE2ESession(idx int, srvURL, thruBin string, seed int64, w io.Writer) e2e
 	}{{"host", host}, {"join", join}} {
 		evs := pr.c.events()
 		o.NumEvents += len(evs)
-		keys := map[uint64]int{}
-		fmt.Fprintf(w, "{\"pt\":\"trace.reset\",\"a\":0,\"b\":0,\"s\":%q,\"sess\":%d}\n", pr.role, idx)
+		writeNormalisedTrace(w, pr.role, idx, evs, true)
 		for _, e := range evs {
-			a := e.A
-			if strings.HasPrefix(e.Pt, "recv.chunk") || e.Pt == "recv.filebegin" || e.Pt == "recv.finalize" ||
-				(strings.HasPrefix(e.Pt, "send.") && e.Pt != "send.worker.take") {
-				id, ok := keys[a]
-				if !ok {
-					id = len(keys) + 1
-					keys[a] = id
-				}
-				a = uint64(id)
-			}
-			if a > 1<<30 {
-				a = 1 << 30
-			}
-			b := e.B
-			if b > 1<<30 {
-				b = 1 << 30
-			}
-			fmt.Fprintf(w, "{\"pt\":%q,\"a\":%d,\"b\":%d,\"s\":%q,\"sess\":%d}\n", e.Pt, a, b, e.S, idx)
 			if e.Pt == "xfer.begin" {
 				if pr.role == "host" {
 					o.HostConns = int(e.A)
@@ -543,6 +524,43 @@ func runE2ESession(idx int, srvURL, thruBin string, seed int64, w io.Writer) e2e
 		o.SameConn = portOf(o.HostPrim[:i]) != 0 && portOf(o.HostPrim[:i]) == portOf(o.JoinPrim)
 	}
 	return o
+}
+
+// writeNormalisedTrace appends one process's hook trace in the form SessionTrace.tla reads: a reset
+// line naming the role (a = 0: a fresh transfer, 1: resume state may exist), 64-bit file keys mapped to
+// small ids, numbers capped for TLC's integers.
+func writeNormalisedTrace(w io.Writer, role string, idx int, evs []hookEv, fresh bool) {
+	keys := map[uint64]int{}
+	f := 0
+	if !fresh {
+		f = 1
+	}
+	fmt.Fprintf(w, "{\"pt\":\"trace.reset\",\"a\":%d,\"b\":0,\"s\":%q,\"sess\":%d}\n", f, role, idx)
+	for _, e := range evs {
+		a := e.A
+		if strings.HasPrefix(e.Pt, "recv.chunk") || e.Pt == "recv.filebegin" || e.Pt == "recv.finalize" ||
+			(strings.HasPrefix(e.Pt, "send.") && e.Pt != "send.worker.take") {
+			id, ok := keys[a]
+			if !ok {
+				id = len(keys) + 1
+				keys[a] = id
+			}
+			a = uint64(id)
+		}
+		if a > 1<<30 {
+			a = 1 << 30
+		}
+		b := e.B
+		if b > 1<<30 {
+			b = 1 << 30
+		}
+		fmt.Fprintf(w, "{\"pt\":%q,\"a\":%d,\"b\":%d,\"s\":%q,\"sess\":%d}\n", e.Pt, a, b, e.S, idx)
+	}
+}
+
+func readHookTrace(path string) []hookEv {
+	c := &childProc{trace: path}
+	return c.events()
 }
 
 func sha256Sum(b []byte) []byte {
